@@ -607,4 +607,155 @@ theorem pushFdtObj_shift (δ : Int) (I : ObjIface σ) (s : State σ) (p : Pkt) (
           rw [hst]
           exact fdtDispatch_shift δ I _ id f' now hn hn' hok'
 
+
+theorem updateExpiredAll_shift (δ : Int) (now : Int) (hn : TimeSane now) (hn' : TimeSane (now + δ)) :
+    ∀ (l : List (Nat × FdtRecv σ)), (∀ kf ∈ l, SkewOK δ kf.2) →
+      updateExpiredAll (now + δ) (l.map (fun kf => (kf.1, shiftF δ kf.2))) =
+        (match updateExpiredAll now l with
+         | .ok l' => .ok (l'.map (fun kf => (kf.1, shiftF δ kf.2)))
+         | .error w => .error w) := by
+  intro l
+  induction l with
+  | nil => intro _; rfl
+  | cons a r ih =>
+    intro hall
+    obtain ⟨k, f⟩ := a
+    simp only [List.map_cons]
+    unfold updateExpiredAll
+    rw [updateExpired_shiftF δ f now hn hn' (hall (k, f) (by simp))]
+    cases f.updateExpired now with
+    | error w => rfl
+    | ok f' =>
+      simp only []
+      rw [ih (fun x hx => hall x (List.mem_cons_of_mem _ hx))]
+      cases updateExpiredAll now r with
+      | error w => rfl
+      | ok r' => rfl
+
+theorem filter_map_shift (δ : Int) (c : Bool) (st : Nat → Bool) (l : List (Nat × FdtRecv σ)) :
+    (l.map (fun kf => (kf.1, shiftF δ kf.2))).filter
+        (fun kf => decide (kf.2.st = FdtState.complete ∨
+          (kf.2.st = FdtState.receiving ∧ ¬ (c = true ∧ kf.2.obj.isSome = true ∧ st kf.1 = true)))) =
+      (l.filter (fun kf => decide (kf.2.st = FdtState.complete ∨
+          (kf.2.st = FdtState.receiving ∧ ¬ (c = true ∧ kf.2.obj.isSome = true ∧ st kf.1 = true))))).map
+        (fun kf => (kf.1, shiftF δ kf.2)) := by
+  induction l with
+  | nil => rfl
+  | cons a r ih =>
+    simp only [List.map_cons, List.filter_cons, shiftF_st, shiftF_obj]
+    split
+    · simp only [List.map_cons]; rw [ih]
+    · exact ih
+
+theorem cleanupFdt_shift (δ : Int) (s : State σ) (now : Int) (st : Nat → Bool) (hn : TimeSane now)
+    (hn' : TimeSane (now + δ)) (hall : ∀ kf ∈ s.fdtReceivers, SkewOK δ kf.2) :
+    cleanupFdt (shiftS δ s) (now + δ) st =
+      (match cleanupFdt s now st with | .ok s' => .ok (shiftS δ s') | .error w => .error w) := by
+  unfold cleanupFdt
+  have h2 : (shiftS δ s).fdtReceivers = s.fdtReceivers.map (fun kf => (kf.1, shiftF δ kf.2)) := rfl
+  have h3 : (shiftS δ s).cfg = s.cfg := rfl
+  rw [h2, h3, updateExpiredAll_shift δ now hn hn' _ hall]
+  cases updateExpiredAll now s.fdtReceivers with
+  | error w => rfl
+  | ok l =>
+    simp only []
+    rw [filter_map_shift]
+    rfl
+
+theorem cleanup_shift (δ : Int) (I : ObjIface σ) (s : State σ) (now : Int) (stale : Stale)
+    (hn : TimeSane now) (hn' : TimeSane (now + δ)) (hall : ∀ kf ∈ s.fdtReceivers, SkewOK δ kf.2) :
+    cleanup I (shiftS δ s) (now + δ) stale =
+      (match cleanup I s now stale with | .ok (s', ev) => .ok (shiftS δ s', ev) | .error w => .error w) := by
+  unfold cleanup
+  have key := shift_of_frame δ s (fun st => cleanupObjects I st stale.obj)
+    (fun a b h => cleanupObjects_core I stale.obj h)
+    (fun a => ⟨(cleanupObjects_fdt I a stale.obj).1, (cleanupObjects_fdt I a stale.obj).2.1⟩)
+  simp only [] at key ⊢
+  rw [key]
+  simp only []
+  rw [cleanupFdt_shift δ _ now stale.fdt hn hn' (by rw [(cleanupObjects_fdt I s stale.obj).2.1]; exact hall)]
+  cases cleanupFdt (cleanupObjects I s stale.obj).1 now stale.fdt with
+  | error w => rfl
+  | ok s2 => rfl
+
+/-- what the skew theorem asks of one call of the history -/
+def SkewHyp (δ : Int) (op : Op) : Prop :=
+  TimeSane op.now ∧ TimeSane (op.now + δ) ∧
+  ∀ p now ans, op = Op.data (.pkt p) now ans → SctOK p
+
+/-- One call commutes with the shift of the receiver clock. -/
+theorem step_shift (δ : Int) (I : ObjIface σ) (s : State σ) (op : Op) (hop : SkewHyp δ op)
+    (hall : AllFdt (SkewOK δ) s) :
+    step I (shiftS δ s) (shiftOp δ op) = mapRes δ (step I s op) := by
+  obtain ⟨hn, hn', hsct⟩ := hop
+  cases op with
+  | data d now ans =>
+    simp only [Op.now] at hn hn'
+    simp only [shiftOp, step, pushData]
+    cases d with
+    | reject => rfl
+    | otherTsi => rfl
+    | pkt p =>
+      simp only []
+      unfold push
+      simp only []
+      have hcs : (if p.closeSession = true then ({ shiftS δ s with closedImminent := true } : State σ) else shiftS δ s) =
+          shiftS δ (if p.closeSession = true then { s with closedImminent := true } else s) := by
+        split <;> rfl
+      rw [hcs]
+      have hall' : AllFdt (SkewOK δ) (if p.closeSession = true then { s with closedImminent := true } else s) := by
+        split <;> exact hall
+      split
+      · rename_i htoi
+        exact pushFdtObj_shift δ I _ p now ans hn hn' (hsct p now ans rfl htoi)
+      · exact pushObj_shift δ I _ p now hn hn' hall'.1
+  | cleanup now stale =>
+    simp only [Op.now] at hn hn'
+    simp only [shiftOp, step]
+    rw [cleanup_shift δ I s now stale hn hn' hall.2]
+    cases cleanup I s now stale with
+    | error w => rfl
+    | ok x => obtain ⟨s', ev⟩ := x; rfl
+
+/-- the invariant of the skew argument is preserved by every call -/
+theorem step_skewOK (δ : Int) (I : ObjIface σ) (s s' : State σ) (op : Op) (r : Res) (evs : List Ev)
+    (hop : SkewHyp δ op) (h : step I s op = .ok (s', r, evs)) (hall : AllFdt (SkewOK δ) s) :
+    AllFdt (SkewOK δ) s' := by
+  obtain ⟨hn, hn', hsct⟩ := hop
+  refine (step_all I (SkewOK δ) s s' op r evs ?_ ?_ ?_ h hall).1
+  · intro p now ans id _ _
+    right
+    exact ⟨rfl, rfl⟩
+  · intro p now ans hop htoi id hid f _
+    obtain ⟨res, hs, hr⟩ := hsct p now ans hop htoi id hid
+    subst hop
+    exact skewOK_push δ I f p now ans res hs hr hn hn'
+  · intro f f' hf hu
+    exact skewOK_updateExpired δ f f' _ hf hu
+
+/-- Histories: the run under the shifted clock is the shifted run. -/
+theorem run_shift (δ : Int) (I : ObjIface σ) :
+    ∀ (ops : List Op) (s : State σ), (∀ op ∈ ops, SkewHyp δ op) → AllFdt (SkewOK δ) s →
+      run I (shiftS δ s) (ops.map (shiftOp δ)) =
+        (match run I s ops with
+         | some (s', out) => some (shiftS δ s', out)
+         | none => none) := by
+  intro ops
+  induction ops with
+  | nil => intro s _ _; rfl
+  | cons op ops ih =>
+    intro s hops hall
+    have hop := hops op (by simp)
+    simp only [List.map_cons, run]
+    rw [step_shift δ I s op hop hall]
+    cases hs : step I s op with
+    | error w => rfl
+    | ok x =>
+      obtain ⟨s', r, ev⟩ := x
+      simp only [mapRes]
+      rw [ih s' (fun o ho => hops o (List.mem_cons_of_mem _ ho)) (step_skewOK δ I s s' op r ev hop hs hall)]
+      cases run I s' ops with
+      | none => rfl
+      | some y => obtain ⟨s'', out⟩ := y; rfl
+
 end Flute.Recv
